@@ -4,6 +4,16 @@ use std::fs::File;
 use std::io::{BufWriter, Write};
 use std::path::{Path, PathBuf};
 
+/// what the driver is about to hand to the library (set before, cleared after the call): if the call never returns
+/// the watchdog of bin/driver.rs reports this as a hang instead of the whole check timing out
+pub static PENDING: std::sync::Mutex<Option<(std::time::Instant, String)>> = std::sync::Mutex::new(None);
+pub fn pending(v: &Value) {
+    *PENDING.lock().unwrap() = Some((std::time::Instant::now(), v.to_string()));
+}
+pub fn pending_done() {
+    *PENDING.lock().unwrap() = None;
+}
+
 pub struct Trace {
     w: BufWriter<File>,
     pub path: PathBuf,
